@@ -317,6 +317,8 @@ class Evaluator:
         if getattr(type(base), "_fold_ok", False) and not n.attr.startswith("__") and n.attr in vars(type(base)) \
                 and not callable(vars(type(base))[n.attr]):
             return vars(type(base))[n.attr]  # class-level data attribute of a sample-domain class
+        if getattr(type(base), "_fold_ok", False) and not n.attr.startswith("__") and callable(getattr(base, n.attr, None)):
+            return getattr(base, n.attr)     # a bound method of a sample-domain object passed around as a value (dispatch tables)
         if isinstance(base, type) and getattr(base, "_fold_ok", False) and not n.attr.startswith("__") and n.attr in vars(base) \
                 and not callable(vars(base)[n.attr]):
             return vars(base)[n.attr]        # ... read through the class itself (Solver.OPTIMAL)
@@ -469,12 +471,16 @@ class Evaluator:
         return fn
 
     def _closure(self, fn):
-        """A nested `def`: callable over domain values; a generator function returns the list of yielded values."""
+        """A nested `def`: callable over domain values (Python calling convention); a generator function returns the list of yielded values."""
         a = fn.args
-        if a.vararg or a.kwarg or a.kwonlyargs or a.posonlyargs:
-            raise Unfoldable("nested def with non-positional parameters")
+        if a.posonlyargs:
+            raise Unfoldable("nested def with positional-only parameters")
         names = [x.arg for x in a.args]
         defaults = [None] * (len(names) - len(a.defaults)) + list(a.defaults)
+        kwonly = [x.arg for x in a.kwonlyargs]
+        kwdefaults = dict(zip(kwonly, a.kw_defaults))
+        vararg = a.vararg.arg if a.vararg else None
+        kwarg = a.kwarg.arg if a.kwarg else None
         outer = self
         is_gen = any(isinstance(n, (ast.Yield, ast.YieldFrom)) for st in fn.body for n in ast.walk(st))
         rebinds = {nm for st in fn.body if isinstance(st, ast.Nonlocal) for nm in st.names}   # `nonlocal x`: rebinding x is seen by the enclosing call
@@ -483,15 +489,33 @@ class Evaluator:
             saved, saved_y = dict(outer.locals), outer.yields
             outer.yields = []
             try:
+                kw = dict(kw)
+                if len(vals) > len(names) and vararg is None:
+                    raise Raised("TypeError")
                 for i, nme in enumerate(names):
                     if i < len(vals):
+                        if nme in kw:
+                            raise Raised("TypeError")
                         outer.locals[nme] = vals[i]
                     elif nme in kw:
-                        outer.locals[nme] = kw[nme]
+                        outer.locals[nme] = kw.pop(nme)
                     elif defaults[i] is not None:
                         outer.locals[nme] = outer.ev(defaults[i])
                     else:
                         raise Raised("TypeError")
+                if vararg is not None:
+                    outer.locals[vararg] = tuple(vals[len(names):])
+                for nme in kwonly:
+                    if nme in kw:
+                        outer.locals[nme] = kw.pop(nme)
+                    elif kwdefaults.get(nme) is not None:
+                        outer.locals[nme] = outer.ev(kwdefaults[nme])
+                    else:
+                        raise Raised("TypeError")
+                if kwarg is not None:
+                    outer.locals[kwarg] = kw
+                elif kw:
+                    raise Raised("TypeError")
                 try:
                     outer._block([s_ for s_ in fn.body if not (isinstance(s_, ast.Expr) and isinstance(s_.value, ast.Constant))])
                     ret = None
